@@ -189,7 +189,8 @@ def build_witness(doc=False):
 ALIGNED_RX = re.compile(r"::(_mm_load_si128|_mm_store_si128|_mm256_load_si256|_mm256_store_si256|_mm_load_p[sd]|_mm_store_p[sd]|"
                         r"_mm_stream_\w+|_mm256_stream_\w+|_mm_load_\w+|_mm_store_\w+|_mm_maskmoveu_si128)$")
 UNALIGNED_OK = re.compile(r"::(_mm_loadu_\w+|_mm_storeu_\w+|_mm256_loadu_\w+|_mm256_storeu_\w+|_mm_lddqu_si128|_mm_loadl_epi64|_mm_storel_epi64)$")
-PTR_INT_FNS = re.compile(r"::(align_offset|is_aligned|is_aligned_to|addr|expose_provenance|with_addr|map_addr)$")
+PTR_INT_FNS = re.compile(r"::(align_offset|is_aligned|is_aligned_to|addr|expose_provenance|with_addr|map_addr|align_to|align_to_mut|"
+                         r"as_simd|as_simd_mut|offset_from|offset_from_unsigned|byte_offset_from|sub_ptr|as_ptr_range|as_mut_ptr_range)$")
 
 
 def align_of(f, t):
